@@ -34,6 +34,20 @@ def zero (bits : Nat) : List Nat := List.replicate (nlimbs bits) 0
 /-- `Uint::MAX = from_limbs_unmasked([u64::MAX; LIMBS])` -/
 def max (bits : Nat) : List Nat := fromLimbsUnmasked bits (List.replicate (nlimbs bits) (W - 1))
 
+/-- `[0; LIMBS]` with `limbs[0] = x` (for `LIMBS ≥ 1`) -/
+def low1 (n x : Nat) : List Nat :=
+  match n with
+  | 0 => []
+  | n + 1 => x :: List.replicate n 0
+
+/-- `const_from_u64` (saturating; used by `ONE`). `none` = panic (never: theorem). -/
+def constFromU64 (bits x : Nat) : Option (List Nat) :=
+  if bits = 0 ∨ (bits < 64 ∧ x ≥ 2 ^ bits) then some (max bits)
+  else fromLimbs bits (low1 (nlimbs bits) x)
+
+/-- `Uint::ONE = const_from_u64(1)` -/
+def one (bits : Nat) : Option (List Nat) := constFromU64 bits 1
+
 /-- replace the last limb by `f last` -/
 def mapTop (f : Nat → Nat) : List Nat → List Nat
   | [] => []
